@@ -513,7 +513,10 @@ Proof.
         match s1 with context [upd (calls s) i ?x] =>
           apply (Sim_same_phase s s1 a i k x HS Hk); [reflexivity|pcs; splitifs; fields; usepc; reflexivity|congruence|reflexivity|reflexivity]
         end end).
+  - (* LCloseOld *)
+    inv_step H; (exists a; split; [reflexivity|]; eapply Sim_frame; eauto).
 Qed.
+
 
 
 
